@@ -18,8 +18,12 @@ import (
 var spLabel = spaces.Space{Name: "labels", Doc: "label tokens: case pairs, multi-character folds, label whitespace, NBSP, escaped brackets, emphasis character",
 	Tokens: []string{"a", "A", "\u00df", "\u1e9e", "ss", "\u0130", "\u00e9", "\u00c9", " ", "\t", "\n", "\u00a0", "\\]", "\\[", "*"}}
 
+// spLabelNul: labels containing NUL (replaced by U+FFFD, spec 2.3) in runs of
+// different lengths, next to letters with case variants and label whitespace.
+var spLabelNul = spaces.Space{Name: "labels-nul", Doc: "label tokens with NUL runs", Tokens: []string{"a", "\x00", " ", "A", "\u00e9", "\ufffd"}}
+
 func init() {
-	spaces.All = append(spaces.All, spLabel)
+	spaces.All = append(spaces.All, spLabel, spLabelNul)
 	register(&Check{
 		ID:   "C12",
 		Rule: "(a) every ordered pair (use label, definition label) of token sequences up to the stated lengths over the label alphabet, in a document that uses the label as shortcut, collapsed and full reference link and as image; pairs whose labels would break the paragraph (blank line inside, or a line starting with * inside) are skipped and counted; (b) every sequence of up to 4 segments with exactly one use and 1-3 competing definitions (plain, in a block quote, in a list item, two in one paragraph; three label spellings); (c) closure laws on every input of the general spaces; non-trivial = (a) both labels valid and their normal forms equal although the raw labels differ, or differ only by something normalisation must not ignore; (b) >= 2 definitions; (c) the document has a reference-style link or image",
@@ -35,8 +39,14 @@ func init() {
 				d := string(x.Tokens(spLabel, nd))
 				c12Pair(x, u, d)
 			})
-			c.Explore("ordering", "all sequences of <=4 segments with one use and 1-3 competing definitions", -1, 4, c12Ordering)
-			for _, p := range []planEntry{{spaces.I, 4, 5}, {spaces.XRef, 5, 6}, {spaces.XLink, 5, 6}, {spaces.L, 3, 4}} {
+			nun, ndn := c.Pick(4, 5), c.Pick(3, 4)
+			c.Explore("label-pairs-nul", fmt.Sprintf("use labels of <=%d tokens x definition labels of <=%d tokens over %q (NUL is replaced by U+FFFD before matching)", nun, ndn, spLabelNul.Tokens), -1, nun+ndn, func(x *X) {
+				u := string(x.Tokens(spLabelNul, nun))
+				d := string(x.Tokens(spLabelNul, ndn))
+				c12Pair(x, u, d)
+			})
+			c.Explore("ordering", "all sequences of <=4 segments with one use and 1-3 competing definitions; a segment is the use, a definition at top level / in a quote / in a list item / in a list item in a quote / twice in one paragraph, or (at most once) one root container holding a tree of quotes and list items of depth <=3 with definitions at different depths in every order", -1, 4, c12Ordering)
+			for _, p := range []planEntry{{spaces.I, 4, 5}, {spaces.XRef, 5, 6}, {spaces.XLink, 5, 6}, {spaces.L, 3, 4}, {spaces.XNulRef, 5, 6}} {
 				sp := p.sp
 				n := c.Pick(p.quick, p.thorough)
 				c.Explore("closure-"+sp.Name, fmt.Sprintf("closure laws on all inputs of <=%d tokens over %s", n, sp.Name), -1, n, func(x *X) {
@@ -59,8 +69,9 @@ func c12Pair(x *X, u, d string) {
 		x.Count("pairs_skipped_label_breaks_paragraph")
 		return
 	}
-	nu, vu := ref.NormLabel(u)
-	nd, vd := ref.NormLabel(d)
+	// Spec 2.3: U+0000 is replaced by U+FFFD before anything else happens.
+	nu, vu := ref.NormLabel(strings.ReplaceAll(u, "\x00", "\ufffd"))
+	nd, vd := ref.NormLabel(strings.ReplaceAll(d, "\x00", "\ufffd"))
 	want := vu && vd && nu == nd
 	doc := "[" + u + "]\n\n[" + u + "][]\n\n[zq][" + u + "]\n\n![" + u + "]\n\n[" + d + "]: /dest\n"
 	in := []byte(doc)
@@ -129,9 +140,9 @@ func c12Ordering(x *X) {
 		ndefs++
 		return fmt.Sprintf("[%s]: /d%d 't%d'", l, ndefs, ndefs)
 	}
-	nseg := 0
+	nseg, nested := 0, 0
 	for nseg < 4 {
-		k := x.ChooseFree(7)
+		k := x.ChooseFree(9)
 		if k == 0 {
 			break
 		}
@@ -153,6 +164,19 @@ func c12Ordering(x *X) {
 			sb.WriteString(def(lab) + "\n" + def(strings.ToUpper(lab)) + "\n\n")
 		case 6:
 			sb.WriteString("> - " + strings.ReplaceAll(def(lab), "\n", "\n>   ") + "\n\n")
+		case 7, 8:
+			// One root block holding a small tree of containers with definitions at
+			// different depths, in every order (a deeper earlier definition against a
+			// shallower later one, and so on).
+			if nested > 0 {
+				return
+			}
+			nested++
+			lines := c12Nested(x, 2, func() []string { return strings.Split(def(lab), "\n") }, &ndefs)
+			if lines == nil {
+				return
+			}
+			sb.WriteString(strings.Join(c12Wrap(lines, k == 7), "\n") + "\n\n")
 		}
 	}
 	if uses != 1 || ndefs == 0 || ndefs > 3 {
@@ -176,6 +200,56 @@ func c12Ordering(x *X) {
 	}
 	x.Outcome(tree.Hash64(sb.String()))
 	x.Sample(q(in))
+}
+
+// c12Wrap puts lines into a block quote (quote) or a bullet list item.
+func c12Wrap(lines []string, quote bool) []string {
+	out := make([]string, len(lines))
+	for i, l := range lines {
+		switch {
+		case quote && l == "":
+			out[i] = ">"
+		case quote:
+			out[i] = "> " + l
+		case i == 0:
+			out[i] = "- " + l
+		case l == "":
+			out[i] = ""
+		default:
+			out[i] = "  " + l
+		}
+	}
+	return out
+}
+
+// c12Nested chooses 1..3 child blocks separated by blank lines; each child is a
+// definition or (depth permitting) a nested quote or list item. nil = more than
+// three definitions (outside the exploration).
+func c12Nested(x *X, depth int, def func() []string, ndefs *int) []string {
+	var lines []string
+	n := 1 + x.ChooseFree(3)
+	for i := 0; i < n; i++ {
+		if i > 0 {
+			lines = append(lines, "")
+		}
+		k := 0
+		if depth > 0 {
+			k = x.ChooseFree(3)
+		}
+		if k == 0 {
+			if *ndefs >= 3 {
+				return nil
+			}
+			lines = append(lines, def()...)
+			continue
+		}
+		sub := c12Nested(x, depth-1, def, ndefs)
+		if sub == nil {
+			return nil
+		}
+		lines = append(lines, c12Wrap(sub, k == 1)...)
+	}
+	return lines
 }
 
 func c12Closure(x *X, in []byte) {
